@@ -5,24 +5,27 @@
 (* every state it visits, so the universe cannot sit in Init and expensive steps must have     *)
 (* few successors.  Hence: the initial state picks a plan (entries per rule) and the server     *)
 (* filter; NewRule / AddEntry steps fill the plan one cheap choice at a time; Start publishes   *)
-(* the configuration; then each request is three steps - Mode chooses between any request and   *)
-(* one "near" the previous request (same host+method+path concatenation: other headers, other   *)
+(* the configuration; then each request is three steps - Mode chooses between any request, one *)
+(* "near" the previous request (same host+method+path concatenation: other headers, other       *)
 (* client, or a colliding host/method split; or only the host differs - the histories the cache  *)
-(* is sensitive to; or only the method differs), Pick(q)                                         *)
+(* is sensitive to; or only the method differs) and one for the URL the previous request was     *)
+(* rewritten to ("rw": same host and method, the path its backend saw), Pick(q)                  *)
 (* only remembers the choice (cheap successors), Do performs HttpRouter!Request(q) (one         *)
 (* successor).                                                                                   *)
 (*                                                                                              *)
 (* `out` is the JSON description of the step just taken: "" for the choice steps,              *)
 (* {"a":"cfg","cfg":...} for Start, {"a":"req","q":...,"exp":...,"impl":...,"own":...,"why":...} *)
 (* for Do - `exp` the contract's prediction, `impl` the implementation-shaped layer's for the   *)
-(* configured variant - and {"a":"purge"} (cache emptied: the replayable case of Evict).        *)
+(* configured variant - {"a":"purge"} (cache emptied: the replayable case of Evict) and          *)
+(* {"a":"unmap","be":b} (backend b deleted from the mapper).                                     *)
 EXTENDS HttpRouter_MC, Json
 
-CONSTANTS GenTemplates, GenShells, GenServerFilters, GenPlans
+CONSTANTS GenTemplates, GenShells, GenServerFilters, GenPlans,
+          GenUnmaps     \* how many times in a behaviour a backend may be deleted (HttpRouter!Unmap)
 
-VARIABLES out, plan, started, pend, mode, purges
+VARIABLES out, plan, started, pend, mode, purges, unmaps
 
-gvars == <<vars, out, plan, started, pend, mode, purges>>
+gvars == <<vars, out, plan, started, pend, mode, purges, unmaps>>
 
 (* purges per behaviour: the simulator takes every enabled step with the same probability, so  *)
 (* an unbounded purge would empty the cache after every other request and hits would be rare    *)
@@ -31,7 +34,7 @@ MaxPurges == 1
 GInit == /\ plan \in GenPlans
          /\ \E sf \in GenServerFilters : cfg = MkCfg(sf, <<>>, <<>>)
          /\ cache = EmptyCache /\ cache0 = EmptyCache /\ n = 0 /\ last = [a |-> "cfg"]
-         /\ started = FALSE /\ pend = <<>> /\ mode = "" /\ purges = 0
+         /\ started = FALSE /\ pend = <<>> /\ mode = "" /\ purges = 0 /\ unmaps = 0
          /\ out = ""
 
 NR == Len(cfg.rules)
@@ -40,7 +43,7 @@ Built == NR = Len(plan) /\ RuleFull
 
 NewRule == /\ ~started /\ RuleFull /\ NR < Len(plan)
            /\ \E s \in GenShells : cfg' = [cfg EXCEPT !.rules = Append(@, MkRule(NR + 1, s, <<>>))]
-           /\ UNCHANGED <<cache, cache0, n, last, plan, started, pend, mode, purges>>
+           /\ UNCHANGED <<cache, cache0, n, last, plan, started, pend, mode, purges, unmaps>>
            /\ out' = ""
 
 AddEntry == /\ ~started /\ ~RuleFull
@@ -48,42 +51,57 @@ AddEntry == /\ ~started /\ ~RuleFull
                  LET j == Len(cfg.rules[NR].paths) + 1
                      e == [t EXCEPT !.backend = IF t.backend = "MISSING" THEN XName[NR][j] ELSE BName[NR][j]]
                  IN cfg' = [cfg EXCEPT !.rules[NR].paths = Append(@, e)]
-            /\ UNCHANGED <<cache, cache0, n, last, plan, started, pend, mode, purges>>
+            /\ UNCHANGED <<cache, cache0, n, last, plan, started, pend, mode, purges, unmaps>>
             /\ out' = ""
 
 Start == /\ ~started /\ Built
          /\ started' = TRUE
          /\ out' = ToJson([a |-> "cfg", cfg |-> cfg])
-         /\ UNCHANGED <<vars, plan, pend, mode, purges>>
+         /\ UNCHANGED <<vars, plan, pend, mode, purges, unmaps>>
 
 Cat(q) == q.host \o q.m \o q.path
 NearSet(p) == {q \in Reqs : q # p /\ \/ Cat(q) = Cat(p)
                                      \/ q.m = p.m /\ q.path = p.path /\ q.hdr = p.hdr /\ q.ip = p.ip
                                      \/ q.host = p.host /\ q.path = p.path /\ q.hdr = p.hdr /\ q.ip = p.ip}
+(* p = last.q: requests for the URL that the backend of the previous request saw (same host and     *)
+(* method, the path as rewritten for p)                                                              *)
+RwSet(p) == {q \in Reqs : /\ last.a = "req" /\ last.exp.code = 0 /\ last.exp.path # p.path
+                          /\ q.host = p.host /\ q.m = p.m /\ q.path = last.exp.path}
 
 Mode == /\ started /\ pend = <<>> /\ mode = "" /\ n < MaxReqs
         /\ \/ mode' = "any"
            \/ last.a = "req" /\ NearSet(last.q) # {} /\ mode' = "near"
+           \/ last.a = "req" /\ RwSet(last.q) # {} /\ mode' = "rw"
+           \/ last.a = "unmap" /\ mode' = "again"
         /\ out' = ""
-        /\ UNCHANGED <<vars, plan, started, pend, purges>>
+        /\ UNCHANGED <<vars, plan, started, pend, purges, unmaps>>
 
 Pick == /\ started /\ pend = <<>> /\ mode # ""
-        /\ \E q \in (IF mode = "near" THEN NearSet(last.q) ELSE Reqs) : pend' = <<q>>
+        /\ \E q \in (CASE mode = "near" -> NearSet(last.q) [] mode = "rw" -> RwSet(last.q) [] mode = "again" -> {last.q} [] OTHER -> Reqs) : pend' = <<q>>
         /\ out' = ""
-        /\ UNCHANGED <<vars, plan, started, mode, purges>>
+        /\ UNCHANGED <<vars, plan, started, mode, purges, unmaps>>
 
 Do == /\ started /\ pend # <<>>
       /\ Request(pend[1])
       /\ pend' = <<>> /\ mode' = ""
       /\ out' = ToJson(last')
-      /\ UNCHANGED <<plan, started, purges>>
+      /\ UNCHANGED <<plan, started, purges, unmaps>>
 
 GPurge == /\ started /\ pend = <<>> /\ mode = "" /\ purges < MaxPurges /\ n >= 2 /\ Purge
           /\ purges' = purges + 1
           /\ out' = ToJson(last')
-          /\ UNCHANGED <<plan, started, pend, mode>>
+          /\ UNCHANGED <<plan, started, pend, mode, unmaps>>
 
-GNext == NewRule \/ AddEntry \/ Start \/ Mode \/ Pick \/ Do \/ GPurge
+(* the backend that has just served a request is deleted; the next request is that request again *)
+(* ("again") or any other                                                                         *)
+GUnmap == /\ started /\ pend = <<>> /\ mode = "" /\ unmaps < GenUnmaps /\ n >= 3
+          /\ last.a = "req" /\ last.exp.code = 0
+          /\ Unmap(last.exp.be)
+          /\ unmaps' = unmaps + 1
+          /\ out' = ToJson([a |-> "unmap", be |-> last'.be])
+          /\ UNCHANGED <<plan, started, pend, mode, purges>>
+
+GNext == NewRule \/ AddEntry \/ Start \/ Mode \/ Pick \/ Do \/ GPurge \/ GUnmap
 GSpec == GInit /\ [][GNext]_gvars
 
 (* plans: entries per rule *)
@@ -92,5 +110,7 @@ PlansHdrFocus == {<<2>>, <<1, 1>>, <<3>>}
 PlansFilterFocus == {<<2>>, <<3>>, <<2, 1>>, <<1, 2>>}
 PlansRuleFocus == {<<0, 1>>, <<1, 1>>, <<0, 2>>}
 PlansMethFocus == {<<2>>, <<3>>, <<1, 1>>, <<0, 2>>}
+PlansRwFocus == {<<1>>, <<2>>, <<3>>, <<1, 1>>, <<2, 1>>}
+PlansShareFocus == {<<0, 1>>, <<0, 2>>, <<1, 1>>}
 PlansC12 == {<<1>>, <<2>>, <<1, 1>>, <<2, 1>>, <<1, 2>>, <<0, 1>>, <<0, 2>>, <<3>>}
 =============================================================================
